@@ -553,6 +553,14 @@ public:
       f["cls"] = recordName(MD->getParent());
       if (MD->isVirtual()) f["virtual"] = true;
       if (MD->isConst()) f["const"] = true;
+      if (const auto *Spec = dyn_cast<ClassTemplateSpecializationDecl>(MD->getParent())) {
+        json::Array ta;
+        for (const TemplateArgument &A : Spec->getTemplateArgs().asArray()) {
+          if (A.getKind() == TemplateArgument::Type) ta.push_back(typeId(A.getAsType()));
+          else ta.push_back(nullptr);
+        }
+        f["cls_targs"] = std::move(ta);
+      }
       if (isa<CXXConstructorDecl>(MD)) f["ctor"] = true;
       if (isa<CXXDestructorDecl>(MD)) f["dtor"] = true;
       json::Array ov;
